@@ -562,6 +562,103 @@ def closure_family(rng):
     return out
 
 
+
+# ---------------------------------------------------------------------------------------------
+# error-recovery families [PYTHON TEST ORACLES]: a host callable calls back into the engine (macro value,
+# caller, block through State::render_block), the call FAILS, the host recovers and the template goes on:
+# scope, capture and escape state must be what they were before the call
+# ---------------------------------------------------------------------------------------------
+ERR_PRELUDE = ("{% macro good(x) %}[{{ x }}]{% endmacro %}{% macro wrapc() %}<{{ caller() }}>{% endmacro %}{% set top = 'top' %}")
+
+
+def err_positions(F):
+    """the failing statement F at every kind of position inside a body"""
+    return [("plain", F), ("with", "{% with q = 1 %}" + F + "{% endwith %}"), ("for", "{% for i in [1, 2] %}" + F + "{% endfor %}"),
+            ("setblock", "{% set zq %}" + F + "{% endset %}{{ zq }}"), ("filter", "{% filter upper %}" + F + "{% endfilter %}"),
+            ("autoescape", "{% autoescape true %}" + F + "{% endautoescape %}"),
+            ("innermacro", "{% macro inner() %}" + F + "{% endmacro %}{{ inner() }}"),
+            ("callblock", "{% call wrapc() %}" + F + "{% endcall %}"),
+            ("deep", "{% for i in [1] %}{% with q = 1 %}{% set zq %}{% filter upper %}" + F + "{% endfilter %}{% endset %}{% endwith %}{% endfor %}")]
+
+
+def err_sites(site):
+    """the call site wrapped in every scoped construct; v = 'kept' is the construct's own variable -> (label, source, text around)"""
+    return [("with", "{% with v = 'kept' %}" + site + "{% endwith %}", ("", "")),
+            ("for", "{% for v in ['kept'] %}" + site + "{% endfor %}", ("", "")),
+            ("forpair", "{% for v in ['kept', 'kept'] %}" + site + "{% endfor %}", None),
+            ("setblock", "{% set v = 'kept' %}{% set zs %}" + site + "{% endset %}{{ zs }}", ("", "")),
+            ("filter", "{% set v = 'kept' %}{% filter replace('#', '#') %}" + site + "{% endfilter %}", ("", "")),
+            ("autoescape", "{% set v = 'kept' %}{% autoescape true %}" + site + "{% endautoescape %}", ("", "")),
+            ("macro", "{% macro site(v) %}" + site + "{% endmacro %}{{ site('kept') }}", ("", "")),
+            ("callblock", "{% set v = 'kept' %}{% call wrapc() %}" + site + "{% endcall %}", ("<", ">")),
+            ("block", "{% set v = 'kept' %}{% block b1 %}" + site + "{% endblock %}", ("", "")),
+            ("plain", "{% set v = 'kept' %}" + site, ("", ""))]
+
+
+def error_family():
+    """-> (label, templates, context, expected)"""
+    fails = [("fail", "{{ fail() }}"), ("div0", "{{ 1 // 0 }}"), ("nofilter", "{{ 1|nosuchfilter }}"), ("noinclude", "{% include 'nosuch_template' %}"),
+             ("nofn", "{{ nosuchfn() }}")]
+    out = []
+    tail = "~{{ top }}{{ attempt(good, 'g') }}|END"
+    k = 0
+    for fl, F in fails:
+        for pl, body in err_positions(F):
+            bad = "{% macro bad(x) %}pre{{ x }}" + body + "post{% endmacro %}"
+            site = "{{ attempt(bad, 'a') }}|{{ v }}|{{ top }}|{{ outer }}{{ attempt(good, 'h') }}"
+            for sl, src, around in err_sites(site):
+                k += 1
+                if fl != "fail" and (k % 3):
+                    continue            # every kind of failure at every position, a third of the sites each
+                one = "failed|kept|top|ctx[h]"
+                exp = (one + one) if around is None else around[0] + one + around[1]
+                out.append(("err:macro:%s:%s:%s" % (fl, pl, sl), {"main": ERR_PRELUDE + bad + src + tail}, {"outer": "ctx"}, exp + "~top[g]|END"))
+    # a failing caller(), recovered inside the macro it was passed to
+    for pl, body in err_positions("{{ fail() }}"):
+        src = ("{% macro tryc(v) %}{{ attempt(caller) }}|{{ v }}|{{ top }}{% endmacro %}{% call tryc('kept') %}x" + body + "y{% endcall %}")
+        out.append(("err:caller:%s" % pl, {"main": ERR_PRELUDE + src + tail}, {"outer": "ctx"}, "failed|kept|top~top[g]|END"))
+    # a block rendered through State::render_block from a callback, failing only then (it also renders in place)
+    for pl, body in err_positions("{{ fail_if_armed() }}"):
+        blk = "{% block risky %}a" + body + "b{% endblock %}"
+        inplace = {"callblock": "a<>b", "filter": "ab"}.get(pl, "ab")
+        site = "{{ attempt_block('risky') }}|{{ v }}|{{ top }}|{{ outer }}{{ attempt(good, 'h') }}"
+        for sl, src, around in err_sites(site):
+            if sl == "block":
+                continue
+            one = "failed|kept|top|ctx[h]"
+            exp = (one + one) if around is None else around[0] + one + around[1]
+            out.append(("err:block:%s:%s" % (pl, sl), {"main": ERR_PRELUDE + blk + src + tail}, {"outer": "ctx"}, inplace + exp + "~top[g]|END"))
+        # the same body as an armed macro
+        m = "{% macro risky_m() %}a" + body + "b{% endmacro %}"
+        site = "{{ attempt_armed(risky_m) }}|{{ risky_m() }}|{{ v }}|{{ top }}"
+        for sl, src, around in err_sites(site)[:4]:
+            one = "failed|" + inplace + "|kept|top"
+            exp = (one + one) if around is None else around[0] + one + around[1]
+            out.append(("err:armedmacro:%s:%s" % (pl, sl), {"main": ERR_PRELUDE + m + src + tail}, {"outer": "ctx"}, exp + "~top[g]|END"))
+    return out
+
+
+def state_histories():
+    """State-level histories: -> (label, request for harness bin c05_state, indices of the steps that must fail).
+    Oracle: every healthy step answers the same before and after every failing step."""
+    out = []
+    for pl, body in err_positions("{{ fail_if_armed() }}"):
+        src = ("{% set top = 'top' %}{% set other = 'other' %}{% macro wrapc() %}<{{ caller() }}>{% endmacro %}"
+               "{% macro bad(x) %}pre{{ x }}" + err_positions("{{ fail() }}")[[p for p, _ in err_positions("")].index(pl)][1] + "post{% endmacro %}"
+               "{% macro good(x) %}[{{ x }}{{ top }}]{% endmacro %}"
+               "{% block risky %}a" + body + "b{% endblock %}{% block fine %}f{{ top }}{{ other }}{% endblock %}")
+        healthy = [["lookup", "top"], ["lookup", "other"], ["exports"], ["call_macro", "good", ["g"]], ["render_block", "fine"], ["render_block", "risky"]]
+        failing = [["call_macro", "bad", ["a"]], ["render_block_armed", "risky"], ["call_macro", "nosuch_macro", []], ["render_block", "nosuch_block"],
+                   ["call_macro", "good", []] if False else ["call_macro", "bad", []]]
+        steps, must_fail = list(healthy), []
+        for f in failing:
+            must_fail.append(len(steps))
+            steps.append(f)
+            steps += healthy
+        out.append(("state:%s" % pl, {"templates": {"main": src}, "main": "main", "ctx": {"outer": "ctx"}, "steps": steps}, must_fail, len(healthy)))
+    return out
+
+
 def fixture_cases():
     """-> (name, source, context or None, aux templates): the repository's fixtures with their own context (first part of
     the file) and the templates under inputs/refs they include / extend"""
@@ -641,8 +738,8 @@ def main():
                        "a recursion call re-enters only loops of the same instruction stream (vm/mod.rs compares the stream address since 1442a27; the error families of the recursive-loop generator exercise it)"]
     okm, blog = build_models("C05")
     proofs_ok = chk.run_proofs()
-    okc, clog = cargo_build(["prog", "c05_trace"], release=False)
-    okr, clog2 = cargo_build(["prog"], release=True)
+    okc, clog = cargo_build(["prog", "c05_trace", "c05_state"], release=False)
+    okr, clog2 = cargo_build(["prog", "c05_state"], release=True)
     if not (okc and okr):
         chk.violation("harness does not build against the current tree", {"theorem_or_correspondence": "build harness/src/bin/prog.rs, c05_trace.rs", "log": (clog + clog2)[-1500:]}, True)
         chk.finish()
@@ -657,16 +754,21 @@ def main():
     base_aux = {"inc0.txt": "i0", "inc1.txt": "{{ n }}"}
     # ---- templates: records {name, src, main, aux, ctxs, expect (per ctx: None | ("ok", s) | ("err", kind)), sentinel, ast} ----
     T = []
-    def add(name, src, ctxs=None, expect=None, aux=None, sentinel=SENT, ast=None, main="main", dynamic=True):
+    histories = []     # State-level histories for harness bin c05_state
+    def add(name, src, ctxs=None, expect=None, aux=None, sentinel=SENT, ast=None, main="main", dynamic=True, callables=False):
         ctxs = base_ctxs if ctxs is None else ctxs
         T.append({"name": name, "src": src, "main": main, "aux": dict(base_aux if aux is None else aux), "ctxs": ctxs,
-                  "expect": expect or [None] * len(ctxs), "sentinel": sentinel, "ast": ast, "dynamic": dynamic})
+                  "expect": expect or [None] * len(ctxs), "sentinel": sentinel, "ast": ast, "dynamic": dynamic, "callables": callables})
     if chk.replay:
         rp = json.load(open(chk.replay))["replay"]
         ctxs = ([rp["context"]] if isinstance(rp.get("context"), dict) else []) + base_ctxs
         aux = dict(base_aux); aux.update(REC_AUX); aux.update(MT_AUX); aux.update(rp.get("aux") or {})
         exp = [tuple(rp["expected"])] if isinstance(rp.get("expected"), list) and isinstance(rp.get("context"), dict) else [None]
-        add("replay", rp["template"], ctxs=ctxs, aux=aux, sentinel=None, main=rp.get("main", "main"), expect=(exp + [None] * len(ctxs))[:len(ctxs)])
+        if "template" in rp:
+            add("replay", rp["template"], ctxs=ctxs, aux=aux, sentinel=None, main=rp.get("main", "main"), expect=(exp + [None] * len(ctxs))[:len(ctxs)],
+                callables=bool(rp.get("callables")))
+        if "state_request" in rp:
+            histories.append(("replay", rp["state_request"], rp.get("must_fail") or [], rp.get("healthy_steps") or 0))
     else:
         depth = 3 if chk.thorough else 2
         for i, t in enumerate(nestings(depth)):
@@ -750,6 +852,11 @@ def main():
                 hist["mt_family_closure_" + parts[1]] += 1
         else:
             chk.notes["closure_family"] = "the reference interpreter (C03 models) did not build: the closure-sentinel family was NOT run"
+        # error-recovery families (Python test oracles): a host callable calls back into the engine, the call fails, the host recovers
+        for label, tm, ctx, exp in error_family():
+            add("mt:" + label, tm["main"], ctxs=[ctx], expect=[("ok", exp)], aux={}, sentinel="|END", callables=True)
+            hist["mt_family_error_" + label.split(":")[1]] += 1
+        histories += state_histories()
         # blocks that render themselves again through self.name() (Python test oracle)
         for label, tm, ctx, exp in self_family():
             aux = {k: v for k, v in tm.items() if k != "main"}
@@ -838,7 +945,7 @@ def main():
             continue
         tm = dict(t["aux"]); tm[t["main"]] = t["src"]
         for ci, ctx in enumerate(t["ctxs"]):
-            dyn_reqs.append({"templates": tm, "main": t["main"], "ctx": ctx, "ops": ["render"]})
+            dyn_reqs.append({"templates": tm, "main": t["main"], "ctx": ctx, "ops": ["render"], "c05_callables": t["callables"]})
             dyn_idx.append((ti, ci))
     dyn_bad = []
     for rel in (False, True):
@@ -855,6 +962,7 @@ def main():
                     what = ("a recursive loop did not render the fold over the tree (operand, capture or escape state not restored around a recursion call)" if t["name"].startswith("rec:")
                             else "variable scope not as before a scoped construct (sentinel variable after the construct)" if t["name"].startswith("mt:scope")
                             else "a macro does not see the variables of its surroundings as they are (closure link / enclosed names not as before a scoped construct, an include or in a for-else branch)" if t["name"].startswith("mt:clos")
+                            else "after a failing macro / caller / block call that the host recovered from, the template does not go on in the scope / capture / escape state it had before the call" if t["name"].startswith("mt:err")
                             else "a block that renders itself again through self.name() does not leave the variables / scopes of the outer rendering as they were" if t["name"].startswith("mt:self")
                             else "output of a template that extends / imports / includes an extending template went to the wrong target (capture state across the hand-over to the parent)" if t["name"].startswith("mt:ext")
                             else "auto-escape state not restored after a construct")
@@ -877,13 +985,36 @@ def main():
                     hist["expected_error_agree"] += 1
             else:
                 dyn_bad.append((ti, ci, rel, "crash", json.dumps(r)[:200]))
+    # ---- State-level histories: healthy steps answer the same before and after every failing step ----
+    hist_bad = []
+    for rel in (False, True):
+        hres = run_json([bin_path("c05_state", rel)], [h[1] for h in histories]) if histories else []
+        for (label, req, must_fail, nh), r in zip(histories, hres):
+            st = r.get("steps")
+            why = None
+            if not isinstance(st, list) or "ok" not in (r.get("render") or {}):
+                why = "the captured render / the history crashed: " + json.dumps(r)[:200]
+            else:
+                base = st[:nh]
+                hist["state_history_steps"] += len(st)
+                for i in must_fail:
+                    if i >= len(st) or not (isinstance(st[i], dict) and "err" in st[i]):
+                        why = "step %d (%r) must fail and did not: %r" % (i, req["steps"][i], st[i] if i < len(st) else None)
+                    elif st[i + 1:i + 1 + nh] != base:
+                        why = "after the failing step %d (%r) the healthy steps answer %r, before it %r" % (i, req["steps"][i], st[i + 1:i + 1 + nh], base)
+                    if why:
+                        break
+            if why:
+                hist_bad.append((label, req, must_fail, nh, rel, why))
+            else:
+                hist["state_histories_ok"] += 1
     tlog("dynamic done: %d renders x2, %d failures" % (len(dyn_reqs), len(dyn_bad)))
     # ---- trace: every activation of eval_impl replayed through the abstract machine ----
     tr_reqs, tr_idx = [], []
     for ti, t in enumerate(T):
         tm = dict(t["aux"]); tm[t["main"]] = t["src"]
         for ci, ctx in enumerate(t["ctxs"]):
-            tr_reqs.append({"templates": tm, "main": t["main"], "ctx": ctx})
+            tr_reqs.append({"templates": tm, "main": t["main"], "ctx": ctx, "c05_callables": t["callables"]})
             tr_idx.append((ti, ci))
     env = dict(ENV); env["MJVERIF_WATCHDOG_MS"] = "8000"
     probe = run_json([bin_path("c05_trace")], tr_reqs[:1], env=env) if tr_reqs else []
@@ -1013,11 +1144,14 @@ def main():
     chk.cov["trace_failures"] = len(trace_bad)
     chk.cov["entry_protocol_failures"] = len(proto_bad)
     chk.cov["exit_protocol_failures"] = len(exit_bad)
+    chk.cov["state_history_failures"] = len(hist_bad)
     # ---- verdicts ----
     seen = set()
     def replay_of(ti, ci=None):
         t = T[ti]
         r = {"template": t["src"], "main": t["main"]}
+        if t["callables"]:
+            r["callables"] = True
         aux = {k: v for k, v in t["aux"].items() if k not in base_aux}
         if aux and not t["name"].startswith("fixture:"):
             r["aux"] = aux
@@ -1066,6 +1200,10 @@ def main():
                      "note": "observations are [pc, operand stack, context frames, open captures, auto-escape entries]; a block / super() body must run one frame above its caller, an include on the caller's frame, "
                              "the parent template of an `extends` from the state the activation started in"})
         chk.violation("a nested evaluation does not start in the state the construct promises (scope / capture depth at the entry of a block, super(), include or at the hand-over of extends)", info)
+    for label, req, must_fail, nh, rel, why in hist_bad[:3]:
+        chk.violation("a State does not answer as before after a failing call_macro / render_block the host recovered from (variables, exports, later calls)",
+                      {"state_request": req, "must_fail": must_fail, "healthy_steps": nh, "profile": "release" if rel else "debug", "observed": why, "family": label,
+                       "note": "harness bin c05_state: render_captured, then the steps through Captured::with_state_mut / state()"})
     for ti, ci, ai, pins, b, a, want_stk in exit_bad[:5]:
         info = replay_of(ti, ci)
         info.update({"activation": ai, "called_by": pins, "observation_before_the_call": b[2:], "observation_after_the_return": a, "expected_operand_stack": want_stk,
